@@ -371,7 +371,7 @@ Lemma mmd_e_loop_filter_skip skip tr order : forall (l : list (@triple F)) st,
 Proof.
   induction l as [|[[M m] i] l IH]; intros st; [reflexivity|].
   cbn [mmd_e_loop filter snd]. destruct (is_skip skip i) eqn:E; cbn [negb]; [apply IH|].
-  cbn [mmd_e_loop is_skip]. destruct (negb (m <? order)); [reflexivity|].
+  cbn [mmd_e_loop is_skip]. cbv zeta. destruct (negb (m - s_dec st <? length (s_out st))); [reflexivity|].
   destruct (ndim M) as [|[|[|k]]]; try reflexivity; apply IH.
 Qed.
 
@@ -471,10 +471,11 @@ Lemma mmd_loops_agree (tr : bool) (T : tensor F) : forall (L : list (@triple F))
   lsorted (@t_mode F) L -> NoDup (map (@t_mode F) L) -> Forall (operand_fits tr (shape T)) L -> (forall y, In y L -> p <= t_mode y) ->
   mmd_loop Op L None tr (s_dec st) (einsum Op I out Ts)
   = rbind (mmd_e_loop Op L None tr order st) (fun st' =>
-      einsum_np Op (seq 0 order :: s_ins st') (s_out st') (T :: s_ops st')).
+      if einsum_sizes_ok (seq 0 order :: s_ins st') (T :: s_ops st')
+      then Ok (einsum Op (seq 0 order :: s_ins st') (s_out st') (T :: s_ops st')) else Err).
 Proof.
   induction L as [|[[X m] i] L IH]; intros st p order I Ts out Hw Hnd HoutI Hcnt Hdec Hskip Hpos Hsz Hsok Hsort HndL Hfit Hp;
-    [cbn [mmd_loop mmd_e_loop rbind]; symmetry; exact (einsum_np_sizes_ok I out Ts (wfI_length _ _ Hw) Hsok)|].
+    [cbn [mmd_loop mmd_e_loop rbind]; fold order I Ts; now rewrite Hsok|].
   destruct Hsort as [Hx Hsort]. cbn [map] in HndL. inversion HndL as [|? ? Hnin HndL']; subst.
   inversion Hfit as [|? ? [Hm [WX Hsh]] Hfit']; subst. cbn [t_mode fst snd] in *.
   assert (Hpm : p <= m) by (apply (Hp (X, m, i)); now left).
@@ -491,8 +492,8 @@ Proof.
   { intros y Hy. specialize (Hx y Hy). cbn [t_mode fst snd] in Hx. assert (t_mode y <> m); [|lia].
     intros E. apply Hnin. rewrite <- E. now apply in_map. }
   assert (Hposall : Forall (fun x => 0 < x) (map (label_size I Ts) out)) by (now apply prod_pos_Forall).
-  assert (Hmlt : (m <? order) = true) by (apply Nat.ltb_lt; exact Hm).
-  cbn [mmd_loop mmd_e_loop is_skip]. rewrite Hmlt. cbn [negb]. fold dec. fold q.
+  assert (Hqlt : (q <? length out) = true) by (apply Nat.ltb_lt; exact Hq).
+  cbn [mmd_loop mmd_e_loop is_skip]. cbv zeta. fold dec. fold q. fold out. rewrite Hqlt. cbn [negb]. rewrite Hnq.
   destruct Hsh as [HsX | [a [b [HsX [Hab HJ]]]]].
   - (* vector operand *)
     assert (Hnd1 : ndim X = 1) by (unfold ndim; now rewrite HsX). rewrite Hnd1. cbn [Nat.eqb].
@@ -588,7 +589,6 @@ Theorem multi_mode_dot_backends_agree (T : tensor F) (Ms : list (tensor F)) (mod
   multi_mode_dot Op T Ms modes skip tr = multi_mode_dot_e Op T Ms modes skip tr.
 Proof.
   intros L W Hpos Hnd Hfit. unfold multi_mode_dot, multi_mode_dot_e. cbv zeta.
-  rewrite (mmd_e_fits_of_operand_fits T Ms modes skip tr Hfit).
   rewrite (mmd_loop_filter_skip_gen Op), mmd_e_loop_filter_skip. fold L.
   set (order := ndim T). set (st0 := mkS [] [] (seq 0 order) (order + 1) 0).
   rewrite <- (einsum_id T W) at 1. fold order.
